@@ -87,11 +87,15 @@ namespace igris
 
         void init(void *zone, size_t size, size_t elsize)
         {
+            // a free cell holds the free-list link: cells are at least that
+            // large and a multiple of it (keeps every link inside the zone and
+            // aligned); a tail that is not a whole cell stays unused
+            const size_t lnk = sizeof(struct slist_head);
             _zone = zone;
-            _size = size;
-            _elemsz = elsize;
+            _elemsz = elsize < lnk ? lnk : (elsize + lnk - 1) / lnk * lnk;
+            _size = size - size % _elemsz;
             pool_init(&head);
-            pool_engage(&head, zone, size, elsize);
+            pool_engage(&head, zone, _size, _elemsz);
             _count = this->size();
         }
 
